@@ -270,7 +270,11 @@ def linestrings(coords, *a, **k):
 
 
 def _apply(f, pts):
-    out = f([[x, y] for x, y in pts])
+    from models import npl
+
+    out = f(npl.ndarray([[x, y] for x, y in pts], (len(pts), 2), None))
+    if hasattr(out, "tolist"):
+        out = out.tolist()
     return [(_r[0], _r[1]) for _r in out]
 
 
@@ -286,10 +290,65 @@ def _outside(name):
     return fn
 
 
-buffer = _outside("buffer")
-clip_by_rect = _outside("clip_by_rect")
+ABSTRACT_GEOS = False  # set by a harness that only reasons about BOUNDS of GEOS results (props/c11.py)
+
+
+class _BoundsOnly(Polygon):
+    """stands for 'whatever GEOS returned', of which only the bounding rectangle is stated"""
+
+
+ROUND_CAP_REACH = 0.98  # an 8-segment round cap reaches at least cos(pi/16) = 0.9808 of the radius everywhere
+MITRE_LIMIT = 5.0
+
+
+def _growth(distance):
+    """a solver-chosen amount in [0.98 d, 5 d]: how far GEOS's buffer pushes one side of the bounding box"""
+    from vf.h import MODEL
+
+    if not MODEL:
+        raise OutsideModel("abstract GEOS used outside the analysis")
+    from crosshair.core import proxy_for_type
+    from crosshair.statespace import context_statespace
+    from crosshair.tracers import NoTracing
+    from crosshair.util import IgnoreAttempt
+
+    with NoTracing():
+        space = context_statespace()
+        k = proxy_for_type(float, "geos_growth" + space.uniq(), allow_subtypes=False)
+    if not (ROUND_CAP_REACH * distance <= k and k <= MITRE_LIMIT * distance):
+        raise IgnoreAttempt("growth outside the contract")
+    return k
+
+
+def buffer(geometry, distance, **kw):
+    """bounds-level contract (only with ABSTRACT_GEOS): every side of the bounding box of buffer(g, d) lies
+    between 0.98 d (polygonal round caps are inscribed in the circle) and 5 d (mitre limit) outside the bounding
+    box of g; the amounts are chosen by the solver, so every behaviour GEOS may show is covered"""
+    if not ABSTRACT_GEOS:
+        raise OutsideModel("shapely.buffer is computed by GEOS")
+    x0, y0, x1, y1 = geometry.bounds
+    r = box(x0 - _growth(distance), y0 - _growth(distance), x1 + _growth(distance), y1 + _growth(distance))
+    r.__class__ = _BoundsOnly
+    return r
+
+
+def clip_by_rect(geometry, xmin, ymin, xmax, ymax):
+    if not (ABSTRACT_GEOS and isinstance(geometry, Polygon) and geometry.rect() is not None):
+        raise OutsideModel("shapely.clip_by_rect is computed by GEOS")
+    x0, y0, x1, y1 = geometry.rect()
+    r = box(_sym.fmax(x0, xmin), _sym.fmax(y0, ymin), _sym.fmin(x1, xmax), _sym.fmin(y1, ymax))
+    r.__class__ = _BoundsOnly
+    return r
+
+
+def to_geojson(geometry, **kw):
+    if not (ABSTRACT_GEOS and isinstance(geometry, Polygon) and geometry.rect() is not None):
+        raise OutsideModel("shapely.to_geojson of a GEOS result")
+    x0, y0, x1, y1 = geometry.rect()
+    return {"type": "Polygon", "coordinates": [[[x0, y0], [x1, y0], [x1, y1], [x0, y1], [x0, y0]]]}
+
+
 point_on_surface = _outside("point_on_surface")
-to_geojson = _outside("to_geojson")
 centroid = _outside("centroid")
 intersection = _outside("intersection")
 
